@@ -2,3 +2,5 @@ import Dicom.Props.C13
 #print axioms Dicom.C13.closes_after_eof
 #print axioms Dicom.C13.closes_by_artim
 #print axioms Dicom.C13.stop_completes
+#print axioms Dicom.C13.peer_close_always_ends
+#print axioms Dicom.C13.silence_always_ends
